@@ -286,15 +286,16 @@ for _p in ("C01", "C02", "C04"):
 CHECKS["C02"]["accept_sig"] = CHECKS["C02"].get("accept_sig", []) + [r"^C02\|"]
 
 # ---- Miri (thorough tier only): UB / data-race interpreter on small programs -------------------
-def miri_job(name, args, secs=240, shards=16, stage=5):
-    return dict(name=name, variant="miri", stage=stage, tiers=["thorough"], args=args, miriflags="-Zmiri-seed={shard} -Zmiri-preemption-rate=0.03",
+def miri_job(name, args, secs=240, shards=16, stage=5, extra_flags=""):
+    return dict(name=name, variant="miri", stage=stage, tiers=["thorough"], args=args, miriflags="-Zmiri-seed={shard} -Zmiri-preemption-rate=0.03" + extra_flags,
                 shards=dict(thorough=shards), secs=dict(thorough=secs), watchdog_factor=4)
 
 
 for _p in ("C01", "C02", "C03"):
     CHECKS[_p]["jobs"] += [
         miri_job("tiny-S-miri", ["rc", "--profile", "tiny", "--mode", "S", "--prop", _p, "--relevant", "any_destruct"], shards=8),
-        miri_job("tiny-P-miri", ["rc", "--profile", "tiny", "--mode", "P", "--prop", _p, "--relevant", "any_destruct"], shards=8),
+        # free-running threads: without the Stacked-Borrows retag accesses (see DESIGN.md 12.4), real accesses only
+        miri_job("tiny-P-miri", ["rc", "--profile", "tiny", "--mode", "P", "--prop", _p, "--relevant", "any_destruct"], shards=8, extra_flags=" -Zmiri-disable-stacked-borrows"),
     ]
 for _p in ("C13", "C15"):
     CHECKS[_p]["jobs"] += [
